@@ -792,6 +792,9 @@ for _g, _h, _fn, _pr, _bd in (
 O(id='xer_whitespace_span', props=['C03', 'C04', 'C19'], entry='h_xer_whitespace_span', harness='harness/h_xer_ws.c', units=[SK + 'xer_decoder.c'], link=[SK + 'xer_decoder.c'],
   include=['contracts/xer_decoder.h'], enforce=['xer_whitespace_span'], loops=True, functions=['xer_whitespace_span'], backends=['sat', 'cvc5'], min_props=15, timeout=600)
 
+O(id='xer_check_tag', props=['C03', 'C04', 'C19'], entry='h_xer_check_tag', harness='harness/h_xer_ws.c', units=[SK + 'xer_decoder.c'], link=[SK + 'xer_decoder.c'],
+  include=['contracts/xer_decoder.h'], enforce=['xer_check_tag'], loops=True, functions=['xer_check_tag'], backends=['sat', 'cvc5'], min_props=15, timeout=600)
+
 for _o in OBLIGATIONS:
     if _o.get('enforce') and _o.get('kind') in ('enforce', 'width') and _o.get('tier') == 'quick' and 'C19' not in _o['props']:
         _o['props'] = _o['props'] + ['C19']
